@@ -25,6 +25,8 @@ type rwEnv struct {
 	ctx    sdk.Context
 	assets []string
 	lps    []sdk.AccAddress
+	equal  []sdk.AccAddress // providers with equal shares (tiny-allocation chains)
+	tiny   bool
 }
 
 func newRwEnv(rng *Rng) *rwEnv {
@@ -34,13 +36,40 @@ func newRwEnv(rng *Rng) *rwEnv {
 	for i := 0; i < 3; i++ {
 		e.lps = append(e.lps, sdk.AccAddress(crypto.AddressHash([]byte(fmt.Sprintf("verif-lp-%d", i)))))
 	}
+	for i := 0; i < 6; i++ {
+		e.equal = append(e.equal, sdk.AccAddress(crypto.AddressHash([]byte(fmt.Sprintf("verif-equal-lp-%d", i)))))
+	}
 	// a provider that cannot receive: the address of a module account is blocked in x/bank
 	e.lps = append(e.lps, authtypes.NewModuleAddress("margin"))
 	return e
 }
 
 // (re)write pools and providers: depth changes between blocks, providers join and leave
+// tiny-allocation chains: one pool, 2-6 providers with EQUAL units (every share of a 1..3 unit
+// block distribution rounds to zero for most of them)
+func (e *rwEnv) equalProviders(rng *Rng) {
+	asset := clptypes.NewAsset("cusdc")
+	n := 2 + rng.Intn(5)
+	depth := new(big.Int).Add(rng.Amount(80), big.NewInt(1000))
+	pool := clptypes.NewPool(&asset, sdk.NewUintFromBigInt(depth), sdk.NewUintFromBigInt(depth), sdk.NewUint(uint64(1000*n)))
+	if err := e.app.ClpKeeper.SetPool(e.ctx, &pool); err != nil {
+		panic(err)
+	}
+	for j, a := range e.equal {
+		if j < n {
+			lp := clptypes.NewLiquidityProvider(&asset, sdk.NewUint(1000), a, e.ctx.BlockHeight())
+			e.app.ClpKeeper.SetLiquidityProvider(e.ctx, &lp)
+		} else if lp, err := e.app.ClpKeeper.GetLiquidityProvider(e.ctx, "cusdc", a.String()); err == nil {
+			e.app.ClpKeeper.DestroyLiquidityProvider(e.ctx, lp.Asset.Symbol, lp.LiquidityProviderAddress)
+		}
+	}
+}
+
 func (e *rwEnv) shufflePools(rng *Rng) {
+	if e.tiny {
+		e.equalProviders(rng)
+		return
+	}
 	npools := 1 + rng.Intn(len(e.assets))
 	for i, sym := range e.assets {
 		asset := clptypes.NewAsset(sym)
@@ -66,7 +95,9 @@ func (e *rwEnv) shufflePools(rng *Rng) {
 		}
 		// providers of this pool: shares of the pool units
 		for j, a := range e.lps {
-			if rng.Chance(1, 3) {
+			// every pool keeps at least its first provider (a pool with units but no provider is not a
+			// reachable state: pool units = Σ provider units, property C02)
+			if j > 0 && rng.Chance(1, 3) {
 				lp, err := e.app.ClpKeeper.GetLiquidityProvider(e.ctx, sym, a.String())
 				if err == nil {
 					e.app.ClpKeeper.DestroyLiquidityProvider(e.ctx, lp.Asset.Symbol, lp.LiquidityProviderAddress)
@@ -78,6 +109,19 @@ func (e *rwEnv) shufflePools(rng *Rng) {
 			e.app.ClpKeeper.SetLiquidityProvider(e.ctx, &lp)
 		}
 	}
+}
+
+// rowan held by all provider accounts, Σ native balances of all pools, rowan of the clp module account
+func (e *rwEnv) holdings() (*big.Int, *big.Int, *big.Int) {
+	holders := big.NewInt(0)
+	for _, a := range append(append([]sdk.AccAddress{}, e.lps...), e.equal...) {
+		holders.Add(holders, e.app.BankKeeper.GetBalance(e.ctx, a, "rowan").Amount.BigInt())
+	}
+	pools := big.NewInt(0)
+	for _, p := range e.app.ClpKeeper.GetPools(e.ctx) {
+		pools.Add(pools, p.NativeAssetBalance.BigInt())
+	}
+	return holders, pools, e.app.BankKeeper.GetBalance(e.ctx, clptypes.GetCLPModuleAddress(), "rowan").Amount.BigInt()
 }
 
 type rwPeriod struct {
@@ -110,6 +154,15 @@ func (e *rwEnv) genPeriods(rng *Rng, h0 uint64) ([]*rwPeriod, []*clptypes.Reward
 		if rng.Chance(1, 10) {
 			mod = length + uint64(rng.Intn(3))
 		}
+		if e.tiny {
+			// 1..3 base units per block, or 1..40 per period
+			if rng.Bool() {
+				alloc = big.NewInt(int64(length) * int64(1+rng.Intn(3)))
+			} else {
+				alloc = big.NewInt(int64(1 + rng.Intn(40)))
+			}
+			mod = uint64(rng.Intn(3))
+		}
 		p := &rwPeriod{start: at, end: at + length - 1, mod: mod, alloc: alloc, total: big.NewInt(0)}
 		ps = append(ps, p)
 		au := sdk.NewUintFromBigInt(alloc)
@@ -124,7 +177,7 @@ func (e *rwEnv) genPeriods(rng *Rng, h0 uint64) ([]*rwPeriod, []*clptypes.Reward
 		}
 		rps = append(rps, &clptypes.RewardPeriod{RewardPeriodId: fmt.Sprintf("rp%d", i), RewardPeriodStartBlock: p.start, RewardPeriodEndBlock: p.end,
 			RewardPeriodAllocation: &au, RewardPeriodPoolMultipliers: mults, RewardPeriodDefaultMultiplier: &def,
-			RewardPeriodDistribute: rng.Bool(), RewardPeriodMod: mod})
+			RewardPeriodDistribute: rng.Bool() || (e.tiny && rng.Chance(2, 3)), RewardPeriodMod: mod})
 		at = p.end + 1 + uint64(rng.Intn(4)/3*(1+rng.Intn(3))) // mostly adjacent, sometimes a gap
 	}
 	return ps, rps
@@ -135,6 +188,7 @@ func init() {
 		blocks := 0
 		for blocks < n {
 			e := newRwEnv(rng)
+			e.tiny = rng.Chance(1, 3)
 			h := uint64(1 + rng.Intn(50))
 			// several schedules in a row on the same chain: the accumulator left by one is what the next starts with
 			for round := 0; round < 4 && blocks < n; round++ {
@@ -162,10 +216,12 @@ func init() {
 					e.ctx = e.ctx.WithBlockHeight(int64(h))
 					supBefore := e.app.BankKeeper.GetSupply(e.ctx, "rowan").Amount
 					cur := e.app.ClpKeeper.GetCurrentRewardPeriod(e.ctx, e.app.ClpKeeper.GetRewardsParams(e.ctx))
+					holdersBefore, poolsBefore, modBefore := e.holdings()
 					res := protect(func() string {
 						clp.EndBlocker(e.ctx, e.app.ClpKeeper)
 						return "ok"
 					})
+					holdersAfter, poolsAfter, modAfter := e.holdings()
 					supAfter := e.app.BankKeeper.GetSupply(e.ctx, "rowan").Amount
 					accu := e.app.ClpKeeper.GetBlockDistributionAccu(e.ctx)
 					delta := supAfter.Sub(supBefore)
@@ -190,6 +246,17 @@ func init() {
 						curS = fmt.Sprintf("cur=%d,%d,%s,%d", cur.RewardPeriodStartBlock, cur.RewardPeriodEndBlock, cur.RewardPeriodAllocation, cur.RewardPeriodMod)
 					}
 					out.Emit(fmt.Sprintf("chk c20.rwblock tag=clp.endblock.rewards.per-block %d %s %s", h, delta, curS), "true", "chk.rwblock", false)
+					// where the created coins are: providers' accounts + pools' native balances (module account backs the latter)
+					paid, pooled, modDelta := new(big.Int).Sub(holdersAfter, holdersBefore), new(big.Int).Sub(poolsAfter, poolsBefore), new(big.Int).Sub(modAfter, modBefore)
+					if paid.Sign() >= 0 && pooled.Sign() >= 0 && modDelta.Sign() >= 0 {
+						acls := "chk.rwaccount"
+						if e.tiny {
+							acls = "chk.rwaccount.tiny"
+						}
+						out.Emit(fmt.Sprintf("chk c20.rwaccount tag=clp.endblock.rewards.in-pool-or-provider %s %s %s %s", delta, paid, pooled, modDelta), "true", acls, false)
+					} else {
+						out.Emit(fmt.Sprintf("chk c20.rwaccount tag=clp.endblock.rewards.in-pool-or-provider.negative %s 0 0 1", delta), "true", "chk.rwaccount.neg", false)
+					}
 					total.Add(total, delta.BigInt())
 					for _, p := range ps {
 						if p.start <= h && h <= p.end {
